@@ -503,7 +503,7 @@ theorem processOne_live [DecidableEq ι] (v : RmVariant) (flag : α → α) (hfl
     (rest : List (Coll G)) (ds : List (ι × ι)) (dead : List ι)
     (htr : List.Forall₂ (Tracks (ids ident s) dead) rest ds) :
     ∃ s' rest' pa pb, processOne v flag res ks s c rest =
-        (s', rest', some ⟨c, some pa, some pb, (res s c).2⟩) ∧
+        (s', rest', some ⟨c, some pa, some pb, (res s c).2, s.nActive, s.ps.length - s.nVar⟩) ∧
       ident pa = a ∧ ident pb = b ∧
       Cfg ks s' ∧ s'.tree = s.tree ∧ (ids ident s').Nodup ∧
       List.Forall₂ (Tracks (ids ident s') (dead ++ remOf a b (res s c).2)) rest' ds ∧
